@@ -199,23 +199,24 @@ func (m *Manager) getPrimaryStatus(status map[string]interface{}) map[string]int
 
 	for id, session := range m.primary.sessions {
 		// Track active and connected counts
-		if session.Connected {
+		st := session.state()
+		if st.Connected {
 			connectedReplicas++
 		}
-		if session.Active && session.Connected {
+		if st.Active && st.Connected {
 			activeReplicas++
 		}
 
 		// Create detailed replica info
 		replicaInfo := map[string]interface{}{
 			"id":                id,
-			"connected":         session.Connected,
-			"active":            session.Active,
-			"last_activity":     session.LastActivity.UnixNano() / int64(time.Millisecond),
-			"last_ack_sequence": session.LastAckSequence,
+			"connected":         st.Connected,
+			"active":            st.Active,
+			"last_activity":     st.LastActivity.UnixNano() / int64(time.Millisecond),
+			"last_ack_sequence": st.LastAckSequence,
 			"listener_address":  session.ListenerAddress,
 			"start_sequence":    session.StartSequence,
-			"idle_time_seconds": time.Since(session.LastActivity).Seconds(),
+			"idle_time_seconds": time.Since(st.LastActivity).Seconds(),
 		}
 
 		replicas = append(replicas, replicaInfo)
